@@ -10,6 +10,8 @@ R4.4  path-level / operation-level parameters are merged by (name, in) with oper
       argument names are de-duplicated with path parameters keeping the plain name
 R4.5  optional => omitted when None: required parameters use the plain entry, optional ones the conditional unpack
 R4.6  one sanitizer for URL holes and signature names
+R4.10 an object occurring twice in a body is serialised twice (visited set = recursion stack)   [= R16.2 bookkeeping instance]
+R4.11 the transport forwards json/data/files/params unchanged, also when they are empty/falsy      [= R17.3]
 R4.9  a supplied header parameter reaches the wire with the caller's value: in the bundled transport per-request
       headers are layered over the transport defaults (never the other way round)          [rule shared with C17]
 R4.8  body dispatch: the variable each request template references is defined by the template emitted under the same
@@ -189,6 +191,13 @@ def run(repo: Repo, rep: Report, tier: str) -> None:
 
     c17.layering_rule(repo, _Relabel(rep, "R4.9"), "R4.9")
 
+    # ---------------------------------------------------------------- R4.10 / R4.11 the body the caller passed is the body that is sent
+    from rules._reuse import reuse as _reuse4
+
+    # R4.10: the serialiser's visited set means "on the recursion stack" (add undone in a finally): an object that occurs twice in a body is sent twice
+    _reuse4(repo, rep, "c16", {"R16.2": "R4.10"}, only=lambda subj: "visited bookkeeping" in subj)
+    # R4.11: the transport forwards every caller kwarg except headers unchanged (an empty list / dict body is still a body)
+    _reuse4(repo, rep, "c17", {"R17.3": "R4.11"})
     # ---------------------------------------------------------------- R4.8 body dispatch
     grc = rg.classes["EndpointRequestGenerator"].methods.get("generate_request_call")
     if grc is None:
